@@ -532,7 +532,7 @@ pub fn run_batch_strided(prop: &str, tier: Tier, seed: u64, workers: usize, limi
     let t0 = Instant::now();
     // total number of runs: ask a worker-side context (needs the corpus)
     let space = {
-        let mut ctx = crate::worker::make_ctx(tier, seed)?;
+        let mut ctx = crate::worker::make_ctx_for(prop, tier, seed)?;
         crate::worker::total_runs(prop, &mut ctx)?
     };
     let mut chunks = Vec::new();
@@ -983,4 +983,56 @@ pub fn selftest_rewrite() -> i32 {
     } else {
         1
     }
+}
+
+/// Debug helper: print a synthesized workbook's main part and what calamine reads from it.
+pub fn dump_main(name: &str) -> i32 {
+    use calamine::Reader;
+    let fx = match crate::synth::make(name) {
+        Some(f) => f,
+        None => return 2,
+    };
+    let mut parts = crate::image::Parts::new(&fx.bytes);
+    let main = if name.ends_with(".ods") { "content.xml".to_string() } else { "xl/worksheets/sheet1.xml".to_string() };
+    if let Some(p) = parts.part(&main) {
+        println!("{}", String::from_utf8_lossy(&p));
+    }
+    let cur = std::io::Cursor::new(fx.bytes.to_vec());
+    match calamine::open_workbook_auto_from_rs(cur) {
+        Ok(mut wb) => {
+            for n in wb.sheet_names() {
+                match wb.worksheet_range(&n) {
+                    Ok(r) => println!("sheet {:?}: start={:?} end={:?} size={:?} cells={} rows={}", n, r.start(), r.end(), r.get_size(), r.cells().count(), r.rows().count()),
+                    Err(e) => println!("sheet {:?}: {:?}", n, e),
+                }
+            }
+        }
+        Err(e) => println!("open: {:?}", e),
+    }
+    0
+}
+
+/// Debug helper: list the stored-fault sites of a fixture (`sim sites <file> <tier> [grep]`).
+pub fn sites_main(file: &str, tier: Tier, pat: &str) -> i32 {
+    let corpus = match crate::corpus::load() {
+        Ok(c) => c,
+        Err(_) => return 2,
+    };
+    let fx = match crate::corpus::find(&corpus, file) {
+        Some(f) => f.clone(),
+        None => return 2,
+    };
+    let mut parts = crate::image::Parts::new(&fx.bytes);
+    let sites = crate::faultgen::sites(&fx, &mut parts, tier);
+    let mut n = 0;
+    for (i, g) in sites.iter().enumerate() {
+        let why: Vec<&str> = g.faults.iter().map(|f| f.why.as_str()).collect();
+        let line = format!("{} inner={:?} {} :: {}", i, g.inner, why.join(" ; "), serde_json::to_string(&g.faults).unwrap_or_default());
+        if pat.is_empty() || line.contains(pat) {
+            println!("{}", line);
+            n += 1;
+        }
+    }
+    println!("{} of {} sites", n, sites.len());
+    0
 }
